@@ -436,6 +436,22 @@ func runC08Raw(e *sim.Env) {
 	var missed []int64
 	for _, em := range emits {
 		if em.id > 0 && mine(em) && !had[em.id] && em.at < recAt && em.at >= 0 {
+			if p.B("double") && em.ret >= recAt {
+				// The first return lasts 50 ms. An emission that was under way at the return may reach the
+				// restored socket as a broadcast and still be in flight when the peer drops again: the
+				// second return (from the same offset) must bring it then.
+				in1, in2 := false, false
+				for _, g := range got {
+					in1 = in1 || (g.phase == 1 && g.id == em.id)
+					in2 = in2 || (g.phase == 2 && g.id == em.id)
+				}
+				if !in1 {
+					if len(connects) == 3 && connects[2]["sid"] == sid1 && !in2 {
+						e.Violate("C08/recovered-with-gap", "raw second recovery", "event #%d, emitted while the session returned the first time, reached it neither then nor at its second return", em.id)
+					}
+					continue
+				}
+			}
 			missed = append(missed, em.id)
 		}
 	}
